@@ -125,7 +125,8 @@ def run(pid, spec, tier, seed, wd, only, rebase, t_start):
             extra = D.gen_harness(fn, sigs[fn])
             entry = 'h_' + fn
         defines = list(js.get('defines', [])) + ['NIX_ENFORCE_' + f for f in enforce]
-        cfile = D.write_unit_c(wd, js['name'], js.get('includes', includes), etext, bodies, extra)
+        fname = re.sub(r'[^\w\.\-\[\]=,]', '_', js['name'])
+        cfile = D.write_unit_c(wd, fname, js.get('includes', includes), etext, bodies, extra)
         alltext = '\n'.join(bodies) + extra
         repl = list(js.get('replace', []))
         # a function with a contract that the (possibly changed) body calls but whose body is not linked in is
@@ -135,7 +136,7 @@ def run(pid, spec, tier, seed, wd, only, rebase, t_start):
             if sg.get('has_contract') and name not in repl and name not in bodyset and name not in enforce \
                     and re.search(r'\b%s\s*\(' % re.escape(name), alltext):
                 repl.append(name)
-        job = D.Job(workdir=wd, jobname=js['name'], cfile=cfile, entry=entry, enforce=enforce, replace=repl,
+        job = D.Job(workdir=wd, jobname=js['name'], filebase=fname, cfile=cfile, entry=entry, enforce=enforce, replace=repl,
                     loop_contracts=js.get('loop_contracts', False), unwind_first=js.get('unwind_first'),
                     cbmc_flags=js.get('cbmc_flags', []), defines=defines, timeout=js.get('timeout', 600), spec=js)
         built.append(job)
